@@ -1227,3 +1227,158 @@ Proof.
   - apply trace_least_app; [exact S1 | rewrite S2; exact R1].
   - rewrite held_after_app, S2; exact R2.
 Qed.
+
+(* ------------------------------------------------------------------ statements for C14 *)
+
+Lemma c14_unique gm grps items ops :
+  let q := fst (fq_run (fq_new gm grps items) ops) in
+  NoDup (map r_gslot (running q)) /\
+  forall k m, assoc_first k grps = Some m -> NoDup (group_slots_held k (running q)).
+Proof.
+  intros q. destruct (reachable_inv gm grps items ops) as (_ & _ & H3 & H4). fold q in H3, H4.
+  split; [apply H3|]. intros k m Hk.
+  destruct (c08_group_inv gm grps items ops k m Hk) as (g & Hg & _). fold q in Hg.
+  destruct (H4 k g Hg) as (_ & _ & G3). apply G3.
+Qed.
+
+(* two distinct positions of the running list never share a global slot; nor a group slot when
+   they belong to the same group *)
+Lemma c14_unique_pairwise gm grps items ops i j ri rj :
+  let q := fst (fq_run (fq_new gm grps items) ops) in
+  i <> j -> nth_error (running q) i = Some ri -> nth_error (running q) j = Some rj ->
+  r_gslot ri <> r_gslot rj.
+Proof.
+  intros q Hij Hi Hj Heq. destruct (c14_unique gm grps items ops) as [Hnd _]. fold q in Hnd.
+  apply Hij. apply (proj1 (NoDup_nth_error _) Hnd i j).
+  - apply nth_error_Some. rewrite nth_error_map, Hi. discriminate.
+  - rewrite !nth_error_map, Hi, Hj. cbn. congruence.
+Qed.
+
+Lemma c14_least_free_trace gm grps items ops :
+  trace_least [] (snd (fq_run (fq_new gm grps items) ops)).
+Proof. exact (proj1 (fq_run_least ops (fq_new gm grps items) (fq_new_inv gm grps items))). Qed.
+
+Lemma c14_slot_partition gm grps items ops :
+  let q := fst (fq_run (fq_new gm grps items) ops) in
+  slots_ok (gslots q) (map r_gslot (running q)) /\
+  forall k g, glookup k (groups q) = Some g -> slots_ok (g_slots g) (group_slots_held k (running q)).
+Proof.
+  intros q. destruct (reachable_inv gm grps items ops) as (_ & _ & H3 & H4). fold q in H3, H4.
+  split; [exact H3|]. intros k g Hk. apply (H4 k g Hk).
+Qed.
+
+Lemma reachable_bounded gm grps items ops :
+  1 <= gm -> Forall (fun kg => 1 <= snd kg) grps -> Forall wpos items ->
+  fq_bounded (fst (fq_run (fq_new gm grps items) ops)).
+Proof.
+  intros H1 H2 H3. apply (fq_run_pres fq_bounded).
+  - intros; apply fq_bounded_step; assumption.
+  - apply fq_bounded_new; assumption.
+Qed.
+
+Lemma c14_bounded gm grps items ops r :
+  1 <= gm -> Forall (fun kg : N * N => 1 <= snd kg) grps -> Forall wpos items ->
+  In r (running (fst (fq_run (fq_new gm grps items) ops))) ->
+  r_gslot r < gm /\
+  forall k t m, r_grp r = Some (k, t) -> assoc_first k grps = Some m -> t < m.
+Proof.
+  intros H1 H2 H3 Hin.
+  pose proof (reachable_bounded gm grps items ops H1 H2 H3) as Hb.
+  destruct (fq_bounded_slots _ r Hb Hin) as [B1 B2].
+  destruct (reachable_limits gm grps items ops) as (L1 & _).
+  split; [rewrite <- L1; exact B1|].
+  intros k t m Hr Hk. destruct (c08_group_inv gm grps items ops k m Hk) as (g & Hg & Hm & _).
+  rewrite <- Hm. eapply B2; eassumption.
+Qed.
+
+(* ------------------------------------------------------------------ a future keeps its context *)
+
+Lemma take_running_keeps id h x h' r :
+  take_running id h = Some (x, h') -> In r h -> it_id (r_item r) <> id -> In r h'.
+Proof.
+  intros Ht Hin Hne. destruct (take_running_spec _ _ _ _ Ht) as (l1 & l2 & -> & -> & Hid).
+  apply in_app_or in Hin. apply in_or_app. destruct Hin as [H|[<-|H]]; auto. congruence.
+Qed.
+
+Lemma held_after_keeps r evs : forall h,
+  In r h -> (forall id, In (EvDone id) evs -> it_id (r_item r) <> id) -> In r (held_after h evs).
+Proof.
+  induction evs as [|e evs IH]; intros h Hin Hd; [exact Hin|].
+  assert (Hd' : forall id, In (EvDone id) evs -> it_id (r_item r) <> id)
+    by (intros id H; apply Hd; right; exact H).
+  destruct e as [it|x|id|]; cbn [held_after].
+  - apply IH; assumption.
+  - apply IH; [apply in_or_app; left; exact Hin | exact Hd'].
+  - destruct (take_running id h) as [[x h']|] eqn:Et; [|apply IH; assumption].
+    apply IH; [|exact Hd']. eapply take_running_keeps; [exact Et | exact Hin|].
+    apply Hd. left; reflexivity.
+  - apply IH; assumption.
+Qed.
+
+Lemma fill_loop_no_done l : forall q id, ~ In (EvDone id) (snd (fill_loop l q)).
+Proof.
+  induction l as [|it rest IH]; intros q id; cbn [fill_loop]; [intros []|].
+  destruct (has_space (gcur q) (gmax q) (it_w it)); [|intros []].
+  destruct (it_grp it) as [k|].
+  - destruct (glookup k (groups q)) as [g|]; [|cbn; intros [H|[H|[]]]; discriminate].
+    destruct (has_space (g_cur g) (g_max g) (it_w it)); cbn [snd In].
+    + intros [H|[H|H]]; [discriminate|discriminate|exact (IH _ _ H)].
+    + intros [H|H]; [discriminate|exact (IH _ _ H)].
+  - cbn [snd In]. intros [H|[H|H]]; [discriminate|discriminate|exact (IH _ _ H)].
+Qed.
+
+Lemma drain_loop_no_done k queue : forall q id, ~ In (EvDone id) (snd (drain_loop k queue q)).
+Proof.
+  induction queue as [|it rest IH]; intros q id; cbn [drain_loop]; [intros []|].
+  destruct (glookup k (groups q)) as [g|]; [|intros []].
+  destruct (has_space (gcur q) (gmax q) (it_w it) && has_space (g_cur g) (g_max g) (it_w it)); [|intros []].
+  cbn [snd In]. intros [H|H]; [discriminate|exact (IH _ _ H)].
+Qed.
+
+Lemma fq_step_dones q o id :
+  In (EvDone id) (snd (fq_step q o)) -> o = OpComplete id \/ o = OpCompleteNoFill id.
+Proof.
+  assert (Hfill : forall q0, ~ In (EvDone id) (snd (fq_fill q0))).
+  { intros q0. unfold fq_fill. destruct (panicked q0); [intros []|apply fill_loop_no_done]. }
+  assert (Hpop : forall id0 res, fq_pop q id0 = Some res -> In (EvDone id) (snd res) -> id = id0).
+  { intros id0 res. unfold fq_pop. destruct (panicked q); [discriminate|].
+    destruct (take_running id0 (running q)) as [[r rest]|]; [|discriminate].
+    destruct (r_grp r) as [[k t]|].
+    - destruct (glookup k (groups (release q r rest))) as [g|].
+      + intros H; injection H as <-. cbn [snd In]. intros [H|H]; [congruence|].
+        exfalso. exact (drain_loop_no_done _ _ _ _ H).
+      + intros H; injection H as <-. cbn. intros [H|[]]; congruence.
+    - intros H; injection H as <-. cbn. intros [H|[]]; congruence. }
+  destruct o as [|id0|id0]; cbn [fq_step].
+  - intros H. exfalso. exact (Hfill _ H).
+  - destruct (fq_pop q id0) as [res|] eqn:E; [|intros []]. cbn [snd]. intros H.
+    apply in_app_or in H. destruct H as [H|H]; [|exfalso; exact (Hfill _ H)].
+    left. f_equal. symmetry. eapply Hpop; eauto.
+  - destruct (fq_pop q id0) as [res|] eqn:E; [|intros []]. intros H.
+    right. f_equal. symmetry. eapply Hpop; eauto.
+Qed.
+
+(* a future in progress keeps its slots (the same rinfo stays in the running list) under every
+   operation that is not its own completion *)
+Lemma c14_stable_while_running q o r :
+  fq_inv q -> In r (running q) ->
+  o <> OpComplete (it_id (r_item r)) -> o <> OpCompleteNoFill (it_id (r_item r)) ->
+  In r (running (fst (fq_step q o))).
+Proof.
+  intros Hq Hin H1 H2. rewrite <- (proj2 (fq_step_least q o Hq)).
+  apply held_after_keeps; [exact Hin|]. intros id Hd Heq.
+  destruct (fq_step_dones q o id Hd) as [->| ->]; congruence.
+Qed.
+
+(* ------------------------------------------------------------------ liveness (C02 / F7) *)
+
+(* a complete run: fill, then the given futures complete one after the other *)
+Definition complete_run (gm : N) (grps : list (N * N)) (items : list item) (ids : list N) : fq :=
+  fst (fq_run (fq_new gm grps items) (OpFill :: map OpComplete ids)).
+
+(* if every started future has completed (and the queue did not panic), nothing is left
+   unstarted *)
+Definition all_started (gm : N) (grps : list (N * N)) (items : list item) (ids : list N) : Prop :=
+  running (complete_run gm grps items ids) = [] ->
+  panicked (complete_run gm grps items ids) = false ->
+  unstarted (complete_run gm grps items ids) = [].
